@@ -9,6 +9,7 @@ CONSTANTS
   BugStaleInit = FALSE
   BugRelinkDrop = FALSE
   BugNoRepub = FALSE
+  BugStaleChan = FALSE
   WSet <- MCWSet
   Gen = TRUE
 CHECK_DEADLOCK FALSE
